@@ -56,15 +56,18 @@ def fixed_frames():
             ("d", {"values": [["dt", "2020-01-01T00:00:00"], ["NaT"], ["dt", "2021-02-03T00:00:00"]], "dtype": "datetime64[ns]"}),
             ("p", {"values": [["str", "/a/b"], ["none"], ["str", "/c"]], "dtype": "object"}),
             ("u", {"values": [["str", "http://a.b/c"], ["str", "https://x.y/z"], ["none"]], "dtype": "object"}),
-            ("t", {"values": [["str", "2020-01-01 10:00:00"], ["str", "2021-02-03 11:30:00"], ["none"]], "dtype": "object"})]
+            ("t", {"values": [["str", "2020-01-01 10:00:00"], ["str", "2021-02-03 11:30:00"], ["none"]], "dtype": "object"}),
+            ("cs", {"values": [["str", "1+2j"], ["str", "3"], ["str", "4"]], "dtype": "object"}),
+            ("ip", {"values": [["str", "127.0.0.1"], ["str", "10.0.0.1"], ["str", "::1"]], "dtype": "object"}),
+            ("bo", {"values": [["bool", True], ["none"], ["bool", False]], "dtype": "object"})]
     out = []
     # unique labels with one and the same str(): 1 / "1", ("t", 1) / "('t', 1)", 2.5 / "2.5"
     for la, lb in ((1, "1"), (("t", 1), "('t', 1)"), (2.5, "2.5"), ("1", 1)):
         out.append({"labels": [la, lb], "cols": [dict(cols[3][1], index="default", name=None, stream="fixed"),
                                                  dict(cols[2][1], index="default", name=None, stream="fixed")],
                     "nrows": 3, "index": "default"})
-    for idx in ("default", "str", "rev", "dup", "same", "mixed"):
-        for lo in (0, 3, 6):
+    for idx in ("default", "str", "rev", "dup", "same", "mixed", "shift"):
+        for lo in (0, 3, 6, 9):
             sel = cols[lo:lo + 3]
             out.append({"labels": [l for l, _ in sel], "cols": [dict(r, index="default", name=None, stream="fixed") for _, r in sel],
                         "nrows": 3, "index": idx})
